@@ -16,10 +16,8 @@ Load ==
           FromSyms(0, "dna", s) /\ Ev([op |-> "fromsyms", dst |-> 0, c |-> "dna", via |-> "iter", syms |-> s, off |-> off])
 Ask ==
     /\ Len(hist) = 1
-    /\ \E n \in {3, 2, 4} :
-          (n = 3 \/ hist[1].off % 8 = 7) /\
-          LET src == [base |-> "reg", r |-> 0, path |-> <<[f |-> "r", a |-> hist[1].off, b |-> hist[1].off + n]>>] IN
-          ToAmino(src) /\ Ev([op |-> "toamino", src |-> src])
+    /\ LET src == [base |-> "reg", r |-> 0, path |-> <<[f |-> "r", a |-> hist[1].off, b |-> hist[1].off + 3]>>] IN
+          ToAmino(src, ToAminoRes(src)) /\ Ev([op |-> "toamino", src |-> src])
 GNext == Load \/ Ask
 GSpec == GInit /\ [][GNext]_gvars
 Emit == (Len(hist) = 2) => PrintT(<<"REPLAY", ToJson(hist)>>)
